@@ -776,6 +776,17 @@ func TestLargeScale(t *testing.T) {
 		}
 		return fs
 	}})
+	shapes = append(shapes, shape{"two fragments with 150 consecutive control frames between them", func(masked bool) []ref.Frame {
+		fs := []ref.Frame{mk(ref.OpText, false, masked, 1, []byte("he"))}
+		for i := 0; i < 150; i++ {
+			op := byte(ref.OpPing)
+			if i%3 == 2 {
+				op = ref.OpPong
+			}
+			fs = append(fs, mk(op, true, masked, i, pattern(i%5, i)))
+		}
+		return append(fs, mk(ref.OpCont, true, masked, 2, []byte("llo")), mk(ref.OpBinary, true, masked, 3, []byte{1, 2, 3}))
+	}})
 	shapes = append(shapes, shape{"500 messages, every third fragmented", func(masked bool) []ref.Frame {
 		var fs []ref.Frame
 		for i := 0; i < 500; i++ {
